@@ -286,7 +286,7 @@ theorem restOK_not_name {rest : List Tok} (h : RestOK rest) : nextIsName rest = 
 
 theorem term_var (g : Bool) (d : Nat) (pre : List Tok) (s : Wire.Str) (r : List Tok) (stk : List Entry) (a : Nat)
     (hr : RestOK r) (hc : CtxOK pre)
-    (hdecl : pre.head? = some Tok.lp → skipDeclGo (Tok.var s :: r) 0 = some 0) :
+    (hdecl : g = true ∨ (pre.head? = some Tok.lp → skipDeclGo (Tok.var s :: r) 0 = some 0)) :
     term g d ⟨pre, Tok.var s :: r, stk, a⟩ = .ok ⟨Tok.var s :: pre, r, ⟨pre.length, .leaf s⟩ :: stk, a⟩ := by
   have hn := restOK_not_name hr
   unfold term
@@ -294,8 +294,10 @@ theorem term_var (g : Bool) (d : Nat) (pre : List Tok) (s : Wire.Str) (r : List 
   have hj : (if (decide (pre.head? = some Tok.lp) && !(g && true)) = true then skipDeclGo (Tok.var s :: r) 0 else some 0) = some 0 := by
     split
     · rename_i h
-      simp only [Bool.and_eq_true, decide_eq_true_eq] at h
-      exact hdecl h.1
+      simp only [Bool.and_eq_true, decide_eq_true_eq, Bool.and_true, Bool.not_eq_true'] at h
+      rcases hdecl with hg | hd
+      · rw [hg] at h; exact absurd h.2 (by simp)
+      · exact hd h.1
     · rfl
   simp only [hj, St.adv, hn, Bool.false_eq_true, if_false, St.push, St.pos, Tok.str]
   have hx : parenParenBefore pre = false := by
@@ -657,7 +659,7 @@ def NoRA (cpp : Bool) (lv : Level) (rest : List Tok) : Prop :=
 def Claim (L : Ladder) (cpp : Bool) (e : PExpr) (ls : List Level) : Prop :=
   ∀ (N a d : Nat) (pre rest : List Tok) (stk : List Entry),
     (print e ++ rest).length ≤ N → d + need e ≤ L.maxDepth → CtxOK pre →
-    (pre.head? = some Tok.lp → declHead (print e ++ rest) = true) →
+    (L.declVarGuard = true ∨ (pre.head? = some Tok.lp → declHead (print e ++ rest) = true)) →
     (rest.head? = some (Tok.op [':']) → topFree e = true) →
     RestOK rest →
     (∀ lv ∈ ls.tail, LvStop cpp lv 0 rest) →
@@ -723,7 +725,7 @@ theorem claim_var (L : Ladder) (cpp : Bool) (s : Wire.Str) : Claim L cpp (var s)
   rw [ladder_nil]
   simp only [K, primN, done, print, List.reverse_cons, List.reverse_nil, List.nil_append, List.singleton_append, rootOff, toAst, Nat.add_zero]
   apply p3_of_term
-  · exact term_var _ d pre s rest stk a hr hc (fun h => by have := hdecl h; simpa [declHead, print, Tok.isName] using this)
+  · exact term_var _ d pre s rest stk a hr hc (hdecl.imp id (fun hd h => by have := hd h; simpa [declHead, print, Tok.isName] using this))
   · simp
   · exact hr
   · exact endsOp_print cpp (var s) rfl pre
@@ -755,7 +757,7 @@ theorem lvstop_nonop (cpp : Bool) (lv : Level) (a : Nat) (t : Tok) (r : List Tok
     · intro hc; simp only [List.head?_cons, Option.some.injEq] at hc; exact absurd hc (h _)
 
 theorem claim_paren (L : Ladder) (cpp : Bool) (e : PExpr) (hs : S1 e = true)
-    (hdk : declHead (print e ++ [Tok.rp]) = true)
+    (hdk : L.declVarGuard = true ∨ declHead (print e ++ [Tok.rp]) = true)
     (ih : Claim L cpp e L.levels) : Claim L cpp (paren e) [] := by
   intro N a d pre rest stk hN hd hc _ _ hr _ _
   rw [ladder_nil]
@@ -781,10 +783,10 @@ theorem claim_paren (L : Ladder) (cpp : Bool) (e : PExpr) (hs : S1 e = true)
         have := hc.1 Tok.rp hrp
         exact this.2.1 rfl
     have h1 := ih (print e ++ Tok.rp :: rest).length a d (Tok.lp :: pre) (Tok.rp :: rest) stk (Nat.le_refl _) hd hc'
-      (fun _ => by
+      (hdk.imp id (fun hdk _ => by
         rw [hp] at hdk ⊢
         simp only [List.cons_append, declHead] at hdk ⊢
-        rw [← List.cons_append, skipDeclGo_rp]; exact hdk)
+        rw [← List.cons_append, skipDeclGo_rp]; exact hdk))
       (fun h => by simp at h)
       (fun t h => by simp only [List.head?_cons, Option.some.injEq] at h; subst h; rfl)
       (fun lv _ => lvstop_nonop cpp lv 0 Tok.rp rest (by simp))
@@ -870,7 +872,7 @@ theorem claim_bin_left {L : Ladder} (hL : L.WF = true) (cpp : Bool) (lv : Level)
   obtain ⟨t', r', hp, ht'⟩ := head_print r hsr
   -- the right operand, one level down and one callback deeper
   have h2 := ihr N a (d + 1) (Tok.op op :: ((print l).reverse ++ pre)) rest (⟨pre.length + rootOff l, toAst l⟩ :: stk)
-    (by simp only [List.length_append]; omega) (by omega) (ctxOK_opOK _ hop) (fun h => by simp at h)
+    (by simp only [List.length_append]; omega) (by omega) (ctxOK_opOK _ hop) (Or.inr (fun h => by simp at h))
     (fun h => by
       have := hcol h
       simp only [topFree, Bool.and_eq_true] at this; exact this.2)
@@ -923,7 +925,7 @@ theorem claim_bin_assign {L : Ladder} (hL : L.WF = true) (cpp : Bool) (lv : Leve
     at_entry L.maxDepth cpp (primN L cpp N) below hk d _ _ h1 (by simp only [done, List.length_append, List.length_cons]; omega)]
   obtain ⟨t', r', hp, ht'⟩ := head_print r hsr
   have h2 := ihr N (a + 1) (d + 1) (Tok.op op :: ((print l).reverse ++ pre)) rest (⟨pre.length + rootOff l, toAst l⟩ :: stk)
-    (by simp only [List.length_append]; omega) (by omega) (ctxOK_opOK _ hop) (fun h => by simp at h)
+    (by simp only [List.length_append]; omega) (by omega) (ctxOK_opOK _ hop) (Or.inr (fun h => by simp at h))
     (fun h => by
       have := hcol h
       simp only [topFree, Bool.and_eq_true] at this; exact this.2)
@@ -998,14 +1000,14 @@ theorem claim_tern {L : Ladder} (hL : L.WF = true) (cpp : Bool) (lv : Level) (be
   -- else branch: two callbacks deeper
   have hE := ihe N 0 (d + 2) (Tok.op [':'] :: ((print t).reverse ++ (Tok.op ['?'] :: ((print c).reverse ++ pre)))) rest
     (⟨(Tok.op ['?'] :: ((print c).reverse ++ pre)).length + rootOff t, toAst t⟩ :: ⟨pre.length + rootOff c, toAst c⟩ :: stk)
-    (by simp only [List.length_append]; omega) (by omega) (ctxOK_colon _) (fun h => by simp at h)
+    (by simp only [List.length_append]; omega) (by omega) (ctxOK_colon _) (Or.inr (fun h => by simp at h))
     (fun h => absurd h hnc) hr hbelow
     (fun lv'' below'' h _ => by simp only [List.cons.injEq] at h; rw [← h.1]; exact hnora)
   rw [ladder_cons_at _ _ _ below hk, K_stop _ _ _ below (d + 2) _ (hstop_lv _)] at hE
   -- middle operand: one callback deeper, state.assign = 0
   have hT := iht N 0 (d + 1) (Tok.op ['?'] :: ((print c).reverse ++ pre)) (Tok.op [':'] :: (print e ++ rest))
     (⟨pre.length + rootOff c, toAst c⟩ :: stk)
-    (by simp only [List.length_append, List.length_cons]; omega) (by omega) (ctxOK_quest _) (fun h => by simp at h)
+    (by simp only [List.length_append, List.length_cons]; omega) (by omega) (ctxOK_quest _) (Or.inr (fun h => by simp at h))
     (fun _ => htf)
     (fun t' h => by simp only [List.head?_cons, Option.some.injEq] at h; subst h; exact restOK_colon)
     (fun lv' hm => lvstop_qc hL cpp (hbm lv' hm) (hbl lv' hm) _ (Or.inr rfl) _ 0)
@@ -1050,7 +1052,7 @@ theorem claim_pre (L : Ladder) (cpp : Bool) (op : Wire.Str) (e : PExpr) (hop : p
   simp only [List.length_cons] at hN
   obtain ⟨t', r', hp, _⟩ := head_print e hs
   -- the operand, one callback deeper
-  have h2 := ih N a (d + 1) (Tok.op op :: pre) rest stk (by omega) (by omega) (ctxOK_op _ _ f8 f1) (fun h => by simp at h)
+  have h2 := ih N a (d + 1) (Tok.op op :: pre) rest stk (by omega) (by omega) (ctxOK_op _ _ f8 f1) (Or.inr (fun h => by simp at h))
     (fun h => by
       have := hcol h
       simp only [topFree, Bool.and_eq_true] at this; exact this.2)
@@ -1096,7 +1098,7 @@ theorem gram_tern_skip (L : Ladder) (pp : Bool) (a0 : Level) (more : List Level)
   simp [Gram, findTern, h]
 
 /-- the heart: every tree of the (post-prepareTernaryOpForAST) grammar is parsed back, at every level -/
-theorem main_claim {L : Ladder} (hL : L.WF = true) (cpp : Bool) : ∀ (e : PExpr), declOK e = true →
+theorem main_claim {L : Ladder} (hL : L.WF = true) (cpp : Bool) : ∀ (e : PExpr), (L.declVarGuard = true ∨ declOK e = true) →
     ∀ ls, Suffix L ls → Gram L true ls e = true → Claim L cpp e ls := by
   intro e
   induction e with
@@ -1110,14 +1112,19 @@ theorem main_claim {L : Ladder} (hL : L.WF = true) (cpp : Bool) : ∀ (e : PExpr
     simpa using this
   | paren e ih =>
     intro hd ls _ hg
-    simp only [declOK, Bool.and_eq_true, beq_iff_eq] at hd
+    have hd1 : L.declVarGuard = true ∨ declOK e = true :=
+      hd.imp id (fun h => by simp only [declOK, Bool.and_eq_true] at h; exact h.1)
+    have hd2 : L.declVarGuard = true ∨ declHead (print e ++ [Tok.rp]) = true :=
+      hd.imp id (fun h => by simp only [declOK, Bool.and_eq_true] at h; exact h.2)
     simp only [Gram] at hg
-    have h0 := claim_paren L cpp e (gram_S1 L true e _ hg) hd.2 (ih hd.1 L.levels (Suffix.refl L) hg)
+    have h0 := claim_paren L cpp e (gram_S1 L true e _ hg) hd2 (ih hd1 L.levels (Suffix.refl L) hg)
     have := claim_lift L cpp _ [] h0 ls
     simpa using this
   | bin op l r ihl ihr =>
-    intro hd ls
-    simp only [declOK, Bool.and_eq_true] at hd
+    intro hd0 ls
+    have hd : (L.declVarGuard = true ∨ declOK l = true) ∧ (L.declVarGuard = true ∨ declOK r = true) :=
+      ⟨hd0.imp id (fun h => by simp only [declOK, Bool.and_eq_true] at h; exact h.1),
+       hd0.imp id (fun h => by simp only [declOK, Bool.and_eq_true] at h; exact h.2)⟩
     induction ls with
     | nil => intro _ hg; simp [Gram, findLevel] at hg
     | cons a0 more ihls =>
@@ -1142,8 +1149,12 @@ theorem main_claim {L : Ladder} (hL : L.WF = true) (cpp : Bool) : ∀ (e : PExpr
           exact claim_bin_assign hL cpp a0 more hsuf hk op g hlook hg.1 l r (gram_S1 L true r _ hg.2.2)
             (ihl hd.1 _ hsuf.tail hg.2.1) (ihr hd.2 _ hsuf hg.2.2)
   | tern c t e ihc iht ihe =>
-    intro hd ls
-    simp only [declOK, Bool.and_eq_true] at hd
+    intro hd0 ls
+    have hd : ((L.declVarGuard = true ∨ declOK c = true) ∧ (L.declVarGuard = true ∨ declOK t = true)) ∧
+        (L.declVarGuard = true ∨ declOK e = true) :=
+      ⟨⟨hd0.imp id (fun h => by simp only [declOK, Bool.and_eq_true] at h; exact h.1.1),
+        hd0.imp id (fun h => by simp only [declOK, Bool.and_eq_true] at h; exact h.1.2)⟩,
+       hd0.imp id (fun h => by simp only [declOK, Bool.and_eq_true] at h; exact h.2)⟩
     induction ls with
     | nil => intro _ hg; simp [Gram, findTern] at hg
     | cons a0 more ihls =>
@@ -1155,8 +1166,8 @@ theorem main_claim {L : Ladder} (hL : L.WF = true) (cpp : Bool) : ∀ (e : PExpr
       · rw [gram_tern_skip L true a0 more c t e hk] at hg
         exact claim_descend L cpp _ a0 more (ihls hsuf.tail hg)
   | pre op e ih =>
-    intro hd ls _ hg
-    simp only [declOK] at hd
+    intro hd0 ls _ hg
+    have hd : L.declVarGuard = true ∨ declOK e = true := hd0.imp id (fun h => by simpa only [declOK] using h)
     simp only [Gram, Bool.and_eq_true] at hg
     have h0 := claim_pre L cpp op e hg.1 (gram_S1 L true e _ hg.2) (ih hd [] (suffix_nil L) hg.2)
     have := claim_lift L cpp _ [] h0 ls
@@ -1281,7 +1292,7 @@ theorem restOK_end (rest : List Tok) (hr : endOK rest = true) : RestOK rest := b
 
 /-- createAst (model) on a grammatical token string gives the grammar's tree -/
 theorem parse_print {L : Ladder} (hL : L.WF = true) (cpp : Bool) (e : PExpr)
-    (hg : Gram L true L.levels e = true) (hd : e.declOK = true) (hn : e.need ≤ L.maxDepth)
+    (hg : Gram L true L.levels e = true) (hd : declFine L e = true) (hn : e.need ≤ L.maxDepth)
     (rest : List Tok) (hr : endOK rest = true) (ha : rest.all Tok.inAlphabet = true) :
     parse L cpp (e.print ++ rest) = .ok ⟨e.print.reverse, rest, [⟨e.rootOff, e.toAst⟩], 0⟩ := by
   unfold parse
@@ -1296,8 +1307,9 @@ theorem parse_print {L : Ladder} (hL : L.WF = true) (cpp : Bool) (e : PExpr)
     | cons t r =>
       simp only [endOK, Bool.or_eq_true, beq_iff_eq] at hr
       rcases hr with (rfl | rfl) | rfl <;> simp
-  have h := main_claim hL cpp e hd L.levels (Suffix.refl L) hg (e.print ++ rest).length 0 0 [] rest []
-    (Nat.le_refl _) (by omega) ⟨by simp, by simp⟩ (by simp) (fun h => absurd h hcol) (restOK_end rest hr)
+  have hd' : L.declVarGuard = true ∨ e.declOK = true := by simpa [declFine] using hd
+  have h := main_claim hL cpp e hd' L.levels (Suffix.refl L) hg (e.print ++ rest).length 0 0 [] rest []
+    (Nat.le_refl _) (by omega) ⟨by simp, by simp⟩ (Or.inr (by simp)) (fun h => absurd h hcol) (restOK_end rest hr)
     (fun lv hm => lvstop_end hL cpp (tail_mem hm) rest hr 0)
     (fun lv below h _ => (lvstop_end hL cpp (by rw [h]; simp) rest hr 0).noRA ‹_›)
   rw [h, K_done L cpp _ L.levels 0 _ (fun lv below h => lvstop_end hL cpp (by rw [h]; simp) rest hr _)]
@@ -1540,7 +1552,7 @@ theorem prep_flat (rest : List Tok) (h : ∀ t ∈ rest, t ≠ Tok.op ['?']) : p
 
 /-- the whole pipeline of the model on a string of the expression grammar -/
 theorem astOf_print {L : Ladder} (hL : L.WF = true) (cpp : Bool) (e : PExpr)
-    (hg : Gram L false L.levels e = true) (hd : (prepE e).declOK = true) (hn : e.need ≤ L.maxDepth)
+    (hg : Gram L false L.levels e = true) (hd : declFine L (prepE e) = true) (hn : e.need ≤ L.maxDepth)
     (rest : List Tok) (hr : endOK rest = true) (ha : rest.all Tok.inAlphabet = true) (hq : ∀ t ∈ rest, t ≠ Tok.op ['?']) :
     astOf L cpp (e.print ++ rest) =
       .ok ⟨(prepE e).print.reverse, rest, [⟨(prepE e).rootOff, e.toAst⟩], 0⟩ := by
@@ -1827,9 +1839,9 @@ theorem declWitness_parse {L : Ladder} (hL : L.WF = true) (cpp : Bool)
     rcases ht with rfl | rfl
     · exact lvstop_nonop cpp lv a _ r (by simp)
     · exact lvstop_other_op cpp lv [';'] r (wf_not_op hL hm (by decide)) (by decide) (by decide) a
-  have hclaim := main_claim hL cpp e1 rfl L.levels (Suffix.refl L) hg 7 0 0
+  have hclaim := main_claim hL cpp e1 (Or.inr rfl) L.levels (Suffix.refl L) hg 7 0 0
     [Tok.op ['*'], Tok.var ['a'], Tok.lp] [Tok.rp, Tok.op [';']] []
-    (by decide) (by simp [e1, need]; omega) (ctxOK_op _ _ (by decide) (by decide)) (by simp) (by simp)
+    (by decide) (by simp [e1, need]; omega) (ctxOK_op _ _ (by decide) (by decide)) (Or.inr (by simp)) (by simp)
     (fun t h => by simp only [List.head?_cons, Option.some.injEq] at h; subst h; rfl)
     (fun lv hm => hstop _ _ 0 (Or.inl rfl) lv (tail_mem hm))
     (fun lv below h _ => (hstop _ _ 0 (Or.inl rfl) lv (by rw [h]; simp)).noRA ‹_›)
